@@ -110,10 +110,10 @@ func TestC11(t *testing.T) {
 	defer r.Finish(t)
 	var targets []Target
 	targets = append(targets, ParrotTargets(true)...)
-	for i := 0; i < mon.Pick(40, 1500); i++ {
+	for i := 0; i < mon.Pick(40, 5000); i++ {
 		targets = append(targets, RandomizedTarget(i))
 	}
-	for i := 0; i < mon.Pick(60, 3000); i++ {
+	for i := 0; i < mon.Pick(60, 10000); i++ {
 		targets = append(targets, CustomTarget(i))
 	}
 	type job struct {
